@@ -976,7 +976,13 @@ def sec_ionq_job(ctx, rng, case):
                 hists.append({str(IR.little_endian_key(b)): (repr(c / shots) if rng.random() < 0.5 else c / shots)
                               for b, c in zip(outs, cnts)})
         if body["type"] == "ionq.multi-circuit.v1":
-            return {"circuit-%03d" % i: h for i, h in enumerate(hists)}
+            # keyed by child-job ids (uuid-like, so in no particular alphabetical order), listed in submission order
+            ids = []
+            while len(ids) < len(hists):
+                cid = "%08x-%04x" % (int(rng.integers(1 << 32)), int(rng.integers(1 << 16)))
+                if cid not in ids:
+                    ids.append(cid)
+            return {cid: h for cid, h in zip(ids, hists)}
         return hists[0]
 
     http.reset(histogram_for)
